@@ -5,6 +5,7 @@ import (
 	"math/rand/v2"
 	"os"
 	"sort"
+	"strconv"
 	"strings"
 	"sync"
 	"sync/atomic"
@@ -55,6 +56,21 @@ func runC12(r *mon.Run, replay string) {
 	r.Assume("checkpoint-bootstrapped nodes are only used when every fork point lies at least 2*maxBranchLen+10 blocks above the checkpoint (below it a checkpoint node legitimately cannot serve or reorg)")
 	r.Assume("loopback TCP; core/consensus is the trusted oracle labelling every generated block")
 
+	if stream, special, ok := parseStreamReplay(replay); ok {
+		// re-run one generated cluster at the current VERIF_SEED
+		if special == "" && stream >= 1000 {
+			special = c12SpecialFor(int(stream - 1000))
+		}
+		if cc, _, _, _ := genCluster(r, stream, special); true {
+			fmt.Printf("note: C12 replaying stream=%d seed=%d: %+v\n", stream, r.Seed, cc)
+		}
+		reps := 3
+		if v, err := strconv.Atoi(os.Getenv("VERIF_REPLAY_REPS")); err == nil && v > 0 {
+			reps = v
+		}
+		parallel(reps, 12, func(int) { runCluster(r, stream, special) })
+		return
+	}
 	if replay != "" {
 		var cc clusterCase
 		if err := loadReplay(r, replay, &cc); err != nil {
@@ -68,17 +84,7 @@ func runC12(r *mon.Run, replay string) {
 	n := r.Pick(40, 600)
 	workers := r.Pick(12, 12)
 	parallel(n, workers, func(i int) {
-		special := ""
-		switch i % 10 {
-		case 3: // the winner's branch length sweeps the 100-block request split
-			special = "long"
-		case 5: // long trunk above the require height, some nodes bootstrapped from a checkpoint
-			special = "checkpoint"
-		case 7: // some nodes serve at most 7 or 1 blocks per request
-			special = "smallbatch"
-		case 9: // a freshly checkpoint-bootstrapped node (no blocks above the checkpoint) joins full nodes
-			special = "freshcp"
-		}
+		special := c12SpecialFor(i)
 		if only := os.Getenv("VERIF_C12_ONLY"); only != "" && only != special {
 			return // development filter (never set by ./check users)
 		}
@@ -139,9 +145,62 @@ func genFreshCheckpoint(r *mon.Run, stream uint64) (clusterCase, *chainlab.Tree,
 	return cc, t, tips, cps
 }
 
+// c12SpecialFor maps a case index to its sub-family.
+func c12SpecialFor(i int) string {
+	switch i % 10 {
+	case 3: // the winner's branch length sweeps the 100-block request split
+		return "long"
+	case 5: // long trunk above the require height, some nodes bootstrapped from a checkpoint
+		return "checkpoint"
+	case 7: // some nodes serve at most 7 or 1 blocks per request
+		return "smallbatch"
+	case 9: // a freshly checkpoint-bootstrapped node (no blocks above the checkpoint) joins full nodes
+		return "freshcp"
+	}
+	return ""
+}
+
+// genTipGap builds the directed scenario "v1gap:<gap>" / "v2gap:<gap>": three
+// nodes in a line 1 - 2 - 0; nodes 0 and 2 share tip T, node 1 holds gap more
+// blocks (v1 blocks in a v1only network, v2 blocks in a v2only network). Only
+// reachable through --replay stream:<n>:v1gap:<gap>; used to study how a block
+// obtained by sync propagates to a peer that is already marked synced.
+func genTipGap(r *mon.Run, stream uint64, special string) (clusterCase, *chainlab.Tree, []*chainlab.Node, []*chainlab.Node) {
+	rng := r.RNG(stream)
+	regime := "v1only"
+	if strings.HasPrefix(special, "v2gap") {
+		regime = "v2only"
+	}
+	gap := 1
+	if i := strings.LastIndex(special, ":"); i >= 0 {
+		if v, err := strconv.Atoi(special[i+1:]); err == nil && v > 0 {
+			gap = v
+		}
+	}
+	p := chainlab.RandomParams(regime, rng)
+	env := chainlab.NewEnv(p)
+	itarget := []byte{0x08, 0x10, 0x40, 0xFF}[rng.IntN(4)]
+	env.Net.InitialTarget = types.BlockID{itarget}
+	t := chainlab.NewTree(env, rng)
+	prof := chainlab.Profile{MaxTxns: 3}
+	cc := clusterCase{Stream: stream, Regime: regime, Params: p, Special: special, InitialTarget: itarget, N: 3, Topology: "line", Cap: 1, Winner: 1}
+	cc.TrunkLen = 5 + rng.IntN(25)
+	T := p2plab.GrowMixed(t, t.Root, cc.TrunkLen, 2, prof)
+	w := p2plab.Grow(t, T, gap, prof)
+	tips := []*chainlab.Node{T, w, T}
+	cc.Edges = [][2]int{{2, 0}, {1, 2}}
+	for i, x := range tips {
+		cc.Branches = append(cc.Branches, branchDesc{Node: i, ForkHeight: T.Height, Len: int(x.Height - T.Height), TipHeight: x.Height, TipNode: x.Idx, Checkpoint: -1, MaxSend: 100})
+	}
+	return cc, t, tips, make([]*chainlab.Node, 3)
+}
+
 func genCluster(r *mon.Run, stream uint64, special string) (clusterCase, *chainlab.Tree, []*chainlab.Node, []*chainlab.Node) {
 	if special == "freshcp" {
 		return genFreshCheckpoint(r, stream)
+	}
+	if strings.HasPrefix(special, "v1gap") || strings.HasPrefix(special, "v2gap") {
+		return genTipGap(r, stream, special)
 	}
 	rng := r.RNG(stream)
 	regime := []string{"mix", "mix", "v2only", "v1only"}[rng.IntN(4)]
@@ -430,10 +489,18 @@ func runCluster(r *mon.Run, stream uint64, special string) {
 		}
 	}
 	var stuck []string
+	v1Unpropagated := !converged
 	if !converged {
+		byAddr := map[string]*p2plab.Node{}
+		for _, n := range nodes {
+			byAddr[n.Addr] = n
+		}
 		for i, n := range nodes {
 			x := n.Mon.Tip()
 			if x != winner {
+				if !stuckOnUnpropagatedV1Tip(x, winner, peerViews(n, byAddr)) {
+					v1Unpropagated = false
+				}
 				h := int64(-1)
 				if x != nil {
 					h = int64(x.Height)
@@ -527,6 +594,10 @@ func runCluster(r *mon.Run, stream uint64, special string) {
 		vsig := "no-convergence-within-90s"
 		if cls := honestBanClass(nodes); cls != "" {
 			vsig += ":honest-peer-banned:" + cls
+		} else if v1Unpropagated {
+			// every stuck node: v1-only gap to the winner, all peers synced without
+			// error, a peer exactly one v1 block ahead (see stuckOnUnpropagatedV1Tip)
+			vsig += ":v1-tip-not-propagated-to-synced-peer"
 		} else if cc.Special == "freshcp" {
 			vsig += ":fresh-checkpoint-node"
 		} else if small {
